@@ -139,6 +139,25 @@ func dependsOn(v ssa.Value, pred func(ssa.Value) bool) bool {
 					}
 				}
 			}
+		case *ssa.Alloc:
+			// a pointer to a local variable / locally built object: depends on whatever is stored into it
+			for _, ref := range *x.Referrers() {
+				switch y := ref.(type) {
+				case *ssa.Store:
+					if y.Addr == x && rec(y.Val, d+1) {
+						return true
+					}
+				case *ssa.FieldAddr, *ssa.IndexAddr:
+					sub := ref.(ssa.Value)
+					if sr := sub.Referrers(); sr != nil {
+						for _, z := range *sr {
+							if st, ok := z.(*ssa.Store); ok && st.Addr == sub && rec(st.Val, d+1) {
+								return true
+							}
+						}
+					}
+				}
+			}
 		}
 		if in, ok := v.(ssa.Instruction); ok {
 			for _, op := range in.Operands(nil) {
